@@ -272,6 +272,18 @@ def run(rep, tier, root=None):
                   fpc.fq + ": one elementwise closed form k (L0/r0)^(5/3) x^(5/6) K_5/6(x) for every separation",
                   "the covariance is not a single elementwise Bessel law for all separations (%s): the stencil and the new row can span "
                   "separations on which Cov is then not the von Karman covariance" % (sorted(set(a.name for a in npw)) or nf(cv, 200)), fpc.where())
+    # ... at the true separations: evaluated in double precision.  A and B come from differences C(0) - C(r) of nearly
+    # equal covariances; a single-precision covariance makes them wrong by per cents for pixel_scale << L0 and the row
+    # recursion unstable (the Cholesky test on Cov_zz still passes)
+    from ..common import narrowing_casts
+    nc_ = narrowing_casts(fpc)
+    for node_, text_ in nc_:
+        rep.violation("K10.precision", "%s: %s" % (fpc.fq, text_),
+                      "%s: the covariance handed to make_covmats has single precision, so A Cov_zz = Cov_xz and A Cov_zz A^T + B B^T = Cov_xx "
+                      "hold for a perturbed covariance only (relative error of the innovation variance up to 14 %% at pixel_scale/L0 = 5e-5), "
+                      "B B^T can be indefinite and the extruded screen diverges" % text_, fpc.where(node_))
+    if not nc_:
+        rep.ok("K10.precision", fpc.fq + ": the covariance is evaluated in double precision")
     # ---- K14 the innovation is independent of the existing screen: one generator stream per instance
     fps = ix.func("aotools.turbulence.phasescreen", "ft_phase_screen")
     spos = fps.params.index("seed") if "seed" in fps.params else None
